@@ -55,6 +55,10 @@ pub enum Mode {
     FlushEnd,
     /// per size: ONE `write()` call, only the `Ok(n)` accepted prefix enters the FIFO; single flush at the end
     RawOnce,
+    /// per size: write until everything is accepted, then poll `flush` exactly ONCE and go on writing whether or not
+    /// it completed (legal for `AsyncWrite`: what a multiplexer does when its own flush is still Pending and another
+    /// stream has data); a flush awaited to completion after the last write
+    FlushPoke,
 }
 
 /// Behaviour of the carrier in the writer -> reader (ciphertext) direction during the transfer. All op indices
@@ -643,6 +647,18 @@ fn run_inner(case: &Case) -> Obs {
                     }
                     if off >= sz || mode == Mode::RawOnce {
                         break;
+                    }
+                }
+                if mode == Mode::FlushPoke {
+                    let polled = std::future::poll_fn(|cx| Poll::Ready(Pin::new(&mut sock_w).poll_flush(cx))).await;
+                    match polled {
+                        Poll::Ready(Ok(())) => o.lock().flushed = acc,
+                        Poll::Ready(Err(e)) => {
+                            o.lock().flush_err = Some(kind(&e));
+                            failed = true;
+                            break 'seq;
+                        }
+                        Poll::Pending => {}
                     }
                 }
                 if mode == Mode::FlushEach {
@@ -1237,6 +1253,7 @@ pub fn run(ctx: &mut Ctx) {
                 g1.push(Case::honest(s, Mode::FlushEach, rbuf, raf, wbs));
                 if s.len() > 1 {
                     g1.push(Case::honest(s, Mode::FlushEnd, rbuf, raf, wbs));
+                    g1.push(Case::honest(s, Mode::FlushPoke, rbuf, raf, wbs));
                 }
             }
         }
@@ -1302,7 +1319,8 @@ pub fn run(ctx: &mut Ctx) {
     let mut g3_pairs_done = Vec::new();
     let mut op_cap_hit = false;
     for s in &rep {
-        let modes: &[Mode] = if s.len() > 1 { &[Mode::FlushEach, Mode::FlushEnd] } else { &[Mode::FlushEach] };
+        let modes: &[Mode] =
+            if s.len() > 1 { &[Mode::FlushEach, Mode::FlushEnd, Mode::FlushPoke] } else { &[Mode::FlushEach] };
         for &mode in modes {
             for &rbuf in g2_rbufs {
                 for &(raf, wbs) in g2_cfgs {
@@ -1336,6 +1354,10 @@ pub fn run(ctx: &mut Ctx) {
                         }
                     }
                     for (chunk, cuts) in &rshapes {
+                        if mode == Mode::FlushPoke {
+                            // differs from FlushEach only where a carrier flush is Pending: grid 3 and the window shapes
+                            break;
+                        }
                         for &(accept, window) in &wshapes {
                             let mut c = base.clone();
                             c.carrier = Carrier {
